@@ -5,12 +5,12 @@ import (
 	"strconv"
 	"strings"
 
+	cerr "github.com/pip-services3-gox/pip-services3-commons-gox/errors"
 	"github.com/pip-services3-gox/pip-services3-expressions-gox/calculator"
 	"github.com/pip-services3-gox/pip-services3-expressions-gox/calculator/functions"
 	"github.com/pip-services3-gox/pip-services3-expressions-gox/calculator/parsers"
 	"github.com/pip-services3-gox/pip-services3-expressions-gox/calculator/variables"
 	"github.com/pip-services3-gox/pip-services3-expressions-gox/variants"
-	cerr "github.com/pip-services3-gox/pip-services3-commons-gox/errors"
 
 	"verifharness/model"
 	"verifharness/mon"
